@@ -451,6 +451,7 @@ def finish(mod, prop_id, tier, seed, nshards, results, inconclusive, wall) -> in
             print(f"  (+{suppressed} further violation witnesses written under {REPLAY_DIR / prop_id}, not printed)")
     elif inconclusive:
         rc = 2
+    if inconclusive:
         for reason in inconclusive:
             print(f"INCONCLUSIVE property={prop_id} {reason[:800]}")
     verdict = {0: "HELD-ON-OBSERVED", 1: "VIOLATED", 2: "INCONCLUSIVE"}[rc]
